@@ -139,6 +139,7 @@ MARKERS = {
         (11, r"try_cleanup_corrupt_lock_file\("),
         (12, r"spawn_local_authority\("),
         (13, r"AuthorityLockGuard::try_acquire\("),
+        (14, r"if" + W + r"ripd::authority_lock_path\(" + W + r"&data_dir" + W + r"\)\.exists\(\)" + W + r"\{"),
     ],
 }
 
